@@ -34,7 +34,7 @@ fn handle_css(
             match item {
                 css::Item::Rule(rule) => {
                     let css::Rule { selectors, body } = rule;
-                    let selectors = scopesel.nest(selectors).into();
+                    let selectors = scopesel.nest(selectors).no_pos()?.into();
                     dest.push_item(css::Rule { selectors, body }.into())
                         .no_pos()?;
                 }
@@ -226,7 +226,7 @@ fn handle_item(
         }
         Item::AtRoot(selectors, body) => {
             let selectors = selectors.eval(scope.clone())?;
-            let ctx = scope.get_selectors().at_root(selectors);
+            let ctx = scope.get_selectors().at_root(selectors).no_pos()?;
             let selectors = ctx.real();
             let subscope = ScopeRef::sub_selectors(scope, ctx);
             if !selectors.is_root() {
@@ -376,7 +376,7 @@ fn handle_item(
         Item::Rule(selectors, body) => {
             check_body(body, BodyContext::Rule)?;
             let selectors = selectors.eval(scope.clone())?;
-            let selectors = scope.get_selectors().nest(selectors);
+            let selectors = scope.get_selectors().nest(selectors).no_pos()?;
             let mut dest = dest.start_rule(selectors.clone()).no_pos()?;
             let scope = ScopeRef::sub_selectors(scope, selectors.into());
             handle_body(body, &mut dest, scope, file_context)?;
